@@ -92,7 +92,7 @@ class GridTransformVectors:
     """Grid.transform_vectors has its own closed-form scale/affine path; it must equal the linear part of the point map."""
 
     target = "deepali.core.grid:Grid.transform_vectors"
-    properties = ("C01",)
+    properties = ("C01", "C10")
 
     def cases(self, tier):
         for D in (2, 3):
